@@ -472,7 +472,8 @@ class TifaCore:
                                        ['_tifa_definitions'])
             definitions = actual_module._tifa_definitions()
             return get_pedal_type_from_json(definitions)
-        except Exception as e:
+        except (Exception, SystemExit) as e:
+            # importing some standard modules runs a program (unittest.__main__ ends in sys.exit())
             error = e
         filename = chain.replace('.', '/') + ".py"
         if self.report.submission and filename in self.report.submission.files:
